@@ -339,8 +339,91 @@ fn case_variants(s: &str) -> Vec<String> {
         .collect()
 }
 
+
+/// Long and deep statements (hundreds of operands, dozens of nested groups) through if / elseif /
+/// while / not, against values computed here.
+fn scale(w: &mut Worker) {
+    let counts: Vec<usize> = w.tier.pick(vec![50, 300], vec![50, 300, 3000]);
+    let mut cases: Vec<(String, Vec<String>, bool)> = vec![];
+    for &n in &counts {
+        let mut all_true: Vec<String> = vec![];
+        let mut ors: Vec<String> = vec![];
+        let mut groups: Vec<String> = vec![];
+        for i in 0..n {
+            if i > 0 {
+                all_true.push("and".into());
+                ors.push("or".into());
+                groups.push("and".into());
+            }
+            all_true.push(if i % 2 == 0 { "true".into() } else { "yes".into() });
+            ors.push(if i == n - 1 { "1".into() } else { "false".into() });
+            groups.extend(["(", "no", "or", "x", ")"].iter().map(|s| s.to_string()));
+        }
+        cases.push((format!("long-and operands {}", n), all_true.clone(), true));
+        let mut one_false = all_true.clone();
+        let last = one_false.len() - 1;
+        one_false[last] = "0".into();
+        cases.push((format!("long-and-last-false operands {}", n), one_false, false));
+        cases.push((format!("long-or operands {}", n), ors.clone(), true));
+        let mut no_true = ors.clone();
+        let last = no_true.len() - 1;
+        no_true[last] = "no".into();
+        cases.push((format!("long-or-all-false operands {}", n), no_true, false));
+        cases.push((format!("long-groups groups {}", n), groups.clone(), true));
+        let mut bad_group = groups.clone();
+        let k = bad_group.len() - 2;
+        bad_group[k] = "false".into();
+        cases.push((format!("long-groups-last-falsy groups {}", n), bad_group, false));
+    }
+    let depths: Vec<usize> = w.tier.pick(vec![10, 60], vec![10, 60, 400]);
+    for &d in &depths {
+        for leaf in ["true", "false"] {
+            let mut toks: Vec<String> = vec!["(".to_string(); d];
+            toks.push(leaf.to_string());
+            toks.extend(vec![")".to_string(); d]);
+            cases.push((format!("deep-groups depth {} leaf {}", d, leaf), toks, leaf == "true"));
+            // every level also has a falsy disjunct in front: ( false or ( false or ( ... leaf ) ) )
+            let mut toks: Vec<String> = vec![];
+            for _ in 0..d {
+                toks.extend(["(", "false", "or"].iter().map(|s| s.to_string()));
+            }
+            toks.push(leaf.to_string());
+            toks.extend(vec![")".to_string(); d]);
+            cases.push((format!("deep-or-groups depth {} leaf {}", d, leaf), toks, leaf == "true"));
+        }
+    }
+    let rig = Rig::new();
+    for (name, toks, exp) in cases {
+        if let Some(r) = ref_eval(&toks) {
+            assert_eq!(r, exp, "harness: the reference evaluator and the constructed expectation disagree on {}", name);
+        }
+        for consumer in 0..4usize {
+            if !w.take() {
+                continue;
+            }
+            let cj = json!({"phase": "scale", "name": name, "tokens": toks, "consumer": CONSUMERS[consumer], "expected": exp});
+            w.begin(|| cj.clone());
+            let got: Result<Result<bool, String>, String> = guarded(|| match consumer {
+                0 => rig.run_not(&toks).and_then(|v| match v.as_str() {
+                    "true" => Ok(false),
+                    "false" => Ok(true),
+                    o => Err(format!("not returned {:?}", o)),
+                }),
+                c => rig.run_script(c as u8, &toks),
+            });
+            w.add_transitions(1);
+            match got {
+                Err(p) => w.fail(&format!("scale:{}:panic", CONSUMERS[consumer]), &format!("{}: panic {}", name, p), cj),
+                Ok(g) if g == Ok(exp) => w.pass(true, hash64(&("scale", consumer, exp))),
+                Ok(g) => w.fail(&format!("scale:{}:wrong-value", CONSUMERS[consumer]), &format!("{} through {}: expected {} got {:?}", name, CONSUMERS[consumer], exp, g), cj),
+            }
+        }
+    }
+}
+
 pub fn worker(w: &mut Worker) {
     let tier = w.tier;
+    scale(w);
     let rig = Rig::new();
     // pass 1: grammar sentences with true/false, generated from the (unambiguous) grammar by length
     let lmax = tier.pick(11usize, 14usize);
@@ -452,7 +535,7 @@ pub fn crash_sig(_case: &Value, kind: &str) -> String {
     kind.to_string()
 }
 
-pub const RULE: &str = "every token sequence up to the length bound over {T,F,and,or,(,)} that the grammar cond := disj ('and' disj)* ; disj := atom ('or' atom)* ; atom := value | '(' cond? ')' accepts, spelled with true/false, through each of not (run_instruction), if, elseif, while (scripts with marker commands); then the truthiness pool (all 2^n case variants of false/no/true/yes and 27 other values, among them values that start or end with a parenthesis) in 6 statement frames; then a command in condition position handing back each value of that pool and the words and, or, (, ), not, 'true and false', 'false or true', '( false )' as its output (one value, judged by the truthiness table); then all sentences up to the second bound with 5x5 truthy/falsy spellings. Oracle: recursive-descent reference evaluator. A case is (statement, consumer); non-trivial when the statement has an operator or group; states = distinct (consumer, value, length) classes; transitions = real evaluations";
+pub const RULE: &str = "every token sequence up to the length bound over {T,F,and,or,(,)} that the grammar cond := disj ('and' disj)* ; disj := atom ('or' atom)* ; atom := value | '(' cond? ')' accepts, spelled with true/false, through each of not (run_instruction), if, elseif, while (scripts with marker commands); then the truthiness pool (all 2^n case variants of false/no/true/yes and 27 other values, among them values that start or end with a parenthesis) in 6 statement frames; then a command in condition position handing back each value of that pool and the words and, or, (, ), not, 'true and false', 'false or true', '( false )' as its output (one value, judged by the truthiness table); then all sentences up to the second bound with 5x5 truthy/falsy spellings. Oracle: recursive-descent reference evaluator. A case is (statement, consumer); non-trivial when the statement has an operator or group; states = distinct (consumer, value, length) classes; transitions = real evaluations. Scale cases: conjunctions, disjunctions and sequences of groups with 50/300 (thorough 3000) operands, groups nested 10/60 (thorough 400) deep, each with its value flipped by the last operand, through all four consumers";
 pub const ASSUMPTIONS: &[&str] = &["atoms that are names of registered commands are excluded (they are dispatched as commands)", "ill-formed statements are not constrained"];
 pub const EXHAUSTIVE: bool = true;
 pub const WALL_CAP_S: (u64, u64) = (50, 1500);
